@@ -88,6 +88,7 @@ func loadRepo(dir, tier, arch string) (*Ctx, error) {
 	sentinelCache = map[*ssa.Global]bool{}
 	sentinelMu.Unlock()
 	flatSentinel = c.sentinelError
+	flatProg = prog
 	c.All = ssautil.AllFunctions(prog)
 	for fn := range c.All {
 		if c.InModule(fn) && !c.isCmd(fn) {
